@@ -869,6 +869,40 @@ def check_clf(kind, which, X, ys, seed, Xq):
     return bad, out
 
 
+def check_shared_transformer(seed):
+    """fit model A with transformer object T, then model B with the SAME object on other labels: A must still
+    predict its own original labels (and B its own) -- each model works on its own fitted copy of T."""
+    import random
+    import numpy
+    from sklearn.tree import DecisionTreeClassifier
+    from mlinsights.mlmodel import TransformedTargetClassifier2, PermutationReciprocalTransformer
+    rng = random.Random(seed)
+    X = numpy.array([[i % 7, (i * 3) % 5] for i in range(30)], dtype=float)
+    ya = numpy.array([10 + 2 * ((i % 7) // 2) for i in range(30)])
+    yb = numpy.array([100 + 5 * ((i * 3) % 5) for i in range(30)])
+    T = PermutationReciprocalTransformer(random_state=rng.randrange(1, 1000))
+    bad = []
+    try:
+        A = TransformedTargetClassifier2(DecisionTreeClassifier(random_state=0), transformer=T).fit(X, ya)
+        pa0 = A.predict(X)
+        B = TransformedTargetClassifier2(DecisionTreeClassifier(random_state=0), transformer=T).fit(X, yb)
+        pa1, pb = A.predict(X), B.predict(X)
+    except Exception as e:  # noqa: BLE001
+        return [("TransformedTargetClassifier2[shared transformer object]:raises",
+                 "predict raises after the same transformer object was used by another model",
+                 "%s: %s" % (type(e).__name__, str(e)[:150]), "each model predicts its own original labels")]
+    if not numpy.array_equal(pa0, pa1) or not set(pa1.tolist()) <= set(ya.tolist()):
+        bad.append(("TransformedTargetClassifier2[shared transformer object]:predictions-change",
+                    "predictions of a fitted model change (or leave its label set) after ANOTHER model was fitted with "
+                    "the same transformer object", {"before": pa0.tolist()[:8], "after": pa1.tolist()[:8]},
+                    "predictions in %s, unchanged" % sorted(set(ya.tolist()))))
+    if not set(pb.tolist()) <= set(yb.tolist()):
+        bad.append(("TransformedTargetClassifier2[shared transformer object]:labels-not-original",
+                    "second model predicts labels outside its training labels", pb.tolist()[:8],
+                    sorted(set(yb.tolist()))))
+    return bad
+
+
 def _size(inp):
     return len(json_dumps(inp))
 
@@ -962,6 +996,13 @@ def search(ctx, hints):
         nontriv.add(("clf", which, kind, tuple(lab_tok(v) for v in make_array(kind, ys)), tuple(out["lin"] or [])))
         report(bad, {"kind": "clf", "labels": kind, "clf": which, "X": X.tolist(), "y": ys, "random_state": seed,
                      "Xq": Xq.tolist()})
+    # (d) histories: one transformer OBJECT handed to two models; each model must keep predicting its own labels
+    for t in range(ctx.pick(6, 40)):
+        s1 = rng.randrange(1 << 20)
+        bad = check_shared_transformer(s1)
+        evals += 1
+        nontriv.add(("shared-transformer", s1))
+        report(bad, {"kind": "shared", "seed": s1})
     # dedupe by key, keep the smallest input
     best = {}
     for v in found:
@@ -985,6 +1026,8 @@ def replay(ctx, item):
     elif kind == "clf":
         ys = [float(v) for v in inp["y"]] if inp["labels"] == "float" else inp["y"]
         bad, _ = check_clf(inp["labels"], inp["clf"], inp["X"], ys, inp["random_state"], inp["Xq"])
+    elif kind == "shared":
+        bad = check_shared_transformer(inp["seed"])
     else:
         raise ValueError("unknown replay kind %r" % kind)
     best = {}
